@@ -23,6 +23,7 @@ func newC18(tier string) run.Job {
 	ls := []gen.Ladder{
 		{Alpha: gen.SigmaFull(), Depth: 2, Funcs: gen.FuncSuffixes(), FuncDepth: 1},
 		{Alpha: gen.SigmaMid(), Depth: 3, MinPrefix: 2},
+		{Alpha: gen.ParenFilters(), Depth: 1},
 	}
 	spec := gen.DocSpec{MaxNodes: 4, Keys: gen.KAB, Scalars: gen.S3, MaxArr: 3}
 	if tier == "thorough" {
